@@ -129,7 +129,7 @@ SYS = {
     'C01': dict(text="Lean 4 theorems over the poll-granular client model (Client/Model.lean): a response completes only the entry with its id and only that call's oneshot; unknown/late/duplicate ids leave every call, entry, timer and queue untouched; ids issued on a channel and its clones are pairwise distinct; run-level statements over all op sequences as listed in evidence.theorems. Tie: the model reproduces the real client's observation stream line by line on PRNG scripts (reordered, duplicated, unknown, already-finished response ids; abandonments; expirations); the C01 monitor (success only with a response read for the call's own id after its request was written, each response consumed once) runs on the implementation's trace.",
         note='Trusted: Lean kernel; axioms propext/Classical.choice/Quot.sound; translator flags (Gen/Flags.lean), harness + ./check; library semantics modelled not verified (tokio mpsc/oneshot/semaphore hand-off, tokio-util DelayQueue timer wheel, futures Abortable/Fuse); one poll = one atomic step; executor drops a completed dispatch / the application stops at the first error item. ',
         technique='Lean 4 invariant proofs over an executable poll-granular model + exact model/implementation correspondence + proved-style monitor on implementation traces', design='8/C01'),
-    'C02': dict(text="Lean 4 theorems, one per wake-enabling event of the property's second sentence (reply/close/error arrival, new request, cancellation, capacity returning, writability returning, completion → caller): the event sets the woken flag of the task that must act, and a task that returns Pending has registered where the model says; the global no-stuck statement is a checked def (C02NoStuckStatement), decided on every woken-only trace by the `settle` operation, which drives model and implementation only through their own wakers until quiescence and compares outcomes and stuck sets. Server side likewise (responses queued / inbound unread with nobody woken).",
+    'C02': dict(text="Lean 4 theorems, one per wake-enabling event of the property's second sentence (reply/close/error arrival, new request, cancellation, capacity returning, writability returning, completion → caller): the event sets the woken flag of the task that must act, and a task that returns Pending has registered where the model says; the global statement is PROVED: C02_no_stuck (client: after settle no live call is stuck, for every op sequence whose clock stays below 2^35 ms; the dispatch's parking discipline, the call futures' wake-up discipline and the permit accounting hold in every reachable state) and C02S_no_stuck (server: unlimited channels, or sinks that wake their owner); the unrestricted statements are refuted by witnesses (a panicked dispatch; a limiter relying on the sink's self-wake). The `settle` operation drives model and implementation only through their own wakers until quiescence and compares outcomes and stuck sets.",
         note='Trusted: Lean kernel; axioms propext/Classical.choice/Quot.sound; translator flags (Gen/Flags.lean), harness + ./check; library semantics modelled not verified (tokio mpsc/oneshot/semaphore hand-off, tokio-util DelayQueue timer wheel, futures Abortable/Fuse); one poll = one atomic step; executor drops a completed dispatch / the application stops at the first error item. ',
         technique='Lean 4 per-event wake theorems + woken-only differential execution to quiescence (settle) on model and implementation', design='8/C02'),
     'C03': dict(text="Lean 4 theorems over the client model: the dequeue loop never yields a request whose receiver is closed; a Cancel is written only for an id that was in flight (and removes it), hence at most once and only after its Request; the guard closes the receiver before queueing the cancel at every yield point (hook); the third clause — after a dispatch poll that goes idle with the transport writable throughout, every abandoned, transmitted, unfinished call has its Cancel on the wire — is proved as acceptance of the full monitor on every model trace (C03_cancel_owed); run-level invariants over all op sequences as listed in evidence.theorems. Tie: exact correspondence incl. drops interleaved with the dispatch at the guard's three yield points; the C03 monitor (request after abandonment, cancel preconditions, cancel owed after a writable poll) runs on the implementation's trace.",
